@@ -216,17 +216,25 @@ func (db *DB) atomically(fn func() error) (err error) {
 			err = fmt.Errorf("pgmini: internal error: %v", r)
 		}
 		if err != nil {
-			for i := len(log) - 1; i >= 0; i-- {
-				e := log[i]
-				if e.idx < 0 {
-					e.t.rows = e.t.rows[:len(e.t.rows)-1]
-				} else {
-					e.t.rows[e.idx] = e.old
-				}
-			}
+			db.undo = &log
+			db.rollbackTo(0)
+			db.undo = nil
 		}
 	}()
 	return fn()
+}
+
+// rollbackTo reverts the effects logged after position n of the undo log (a savepoint).
+func (db *DB) rollbackTo(n int) {
+	log := *db.undo
+	for i := len(log) - 1; i >= n; i-- {
+		if e := log[i]; e.idx < 0 {
+			e.t.rows = e.t.rows[:len(e.t.rows)-1]
+		} else {
+			e.t.rows[e.idx] = e.old
+		}
+	}
+	*db.undo = log[:n]
 }
 
 func (db *DB) logUndo(e undoEntry) {
